@@ -296,34 +296,40 @@ def r13_4(ctx, rc):
     prog = ctx.prog
     G = guards(ctx)
     # the integrity test computes the fresh result with the record's mode
-    nres = R.builder + '._noneable_file_comparison_result'
-    ctx.E.func(nres)
     n = 0
     for f in prog.funcs.values():
         if f.cls != R.builder:
             continue
         for call in prog.calls_in(f):
-            for g in prog.resolve_call(call, f):
-                if isinstance(g, Func) and g.qualname == nres:
-                    n += 1
-                    cn = ctx.H.node_of(f, call)[0]
-                    a0 = ctx.H.subst(call.args[0], f, cn)
-                    a1 = ctx.H.subst(call.args[1], f, cn)
-                    key = 'fresh result in %s uses the record\'s own path ' \
-                        'and mode' % f.qualname
-                    ok = isinstance(a0, ast.Attribute) and \
-                        a0.attr == 'filename' and isinstance(
-                            a1, ast.Attribute) and \
-                        a1.attr == 'file_comparison' and \
-                        ast.dump(a0.value) == ast.dump(a1.value)
-                    if ok:
-                        rc.ok({'call': ast.unparse(call)[:70]}, key=key)
-                    else:
-                        rc.violation(
-                            'mode-mismatch | ' + f.qualname,
-                            'a fresh comparison result is computed with a '
-                            'path/mode that are not both taken from the '
-                            'same record', prog.loc(f, call), key=key)
+            if len(call.args) != 2:
+                continue
+            if not any(isinstance(g, Func) for g in
+                       prog.resolve_call(call, f)):
+                continue
+            cns = ctx.H.node_of(f, call)
+            if not cns:
+                continue
+            cn = cns[0]
+            a1 = ctx.H.subst(call.args[1], f, cn)
+            if not (isinstance(a1, ast.Attribute) and
+                    a1.attr == 'file_comparison'):
+                continue
+            # a fresh comparison result computed with a record's mode
+            n += 1
+            a0 = ctx.H.subst(call.args[0], f, cn)
+            key = 'fresh result in %s uses the record\'s own path ' \
+                'and mode' % f.qualname
+            ok = isinstance(a0, ast.Attribute) and \
+                a0.attr == 'filename' and \
+                ast.dump(a0.value) == ast.dump(a1.value)
+            if ok:
+                rc.ok({'call': ast.unparse(call)[:70]}, key=key)
+            else:
+                rc.violation(
+                    'mode-mismatch | ' + f.qualname,
+                    'a fresh comparison result is computed with a '
+                    'path/mode that are not both taken from the '
+                    'same record', prog.loc(f, call), key=key)
     if n < 3:
         raise AnalysisError('only %d fresh comparison sites' % n)
     # comparisons of results go through JSON equality; replay of a recorded
